@@ -40,7 +40,7 @@ def _shapes(tier):
     if tier == "thorough":
         sh.update({
             "3sc": [F([S(2), S(2), S(2)])],
-            "rule-outline": [F([R([O(2, [(2, []), (1, [])]), S(1)], bg=1), S(1)], bg=1)],
+            "rule-outline": [F([S(1), R([O(2, [(2, []), (1, [])]), S(1)], bg=1)], bg=1)],
             "2feat-rule": [F([S(1), R([S(2), S(1)])]), F([O(1, [(2, [])])], bg=1)],
             "wip-feature": [F([S(3), S(1)], tags=["wip"])],
             "3steps": [F([S(3), S(3)])],
